@@ -247,8 +247,10 @@ class Intersect(C13Entry):
         if round == 0:
             cs.append({"depth": 10, "ra": 200.0, "dec": 0.0, "radius": 0.1, "samples": [[200.0, 0.05], [200.0, 0.2]],
                        "family": "pinned-by-test-suite"})
-        for i in range(ctx.n(120, 1500)):
-            cs.append(self._case(ctx, r, fams[i % len(fams)], ctx.n(3000, 20000)))
+        # (thorough: at most ~10000 triangles per list and 1200 cases keep the generated Coq case files, which are
+        # compiled 400 cases at a time, below ~1 GB of coqc memory each)
+        for i in range(ctx.n(120, 1200)):
+            cs.append(self._case(ctx, r, fams[i % len(fams)], ctx.n(3000, 10000)))
         return cs
 
     def impl(self, c):
@@ -588,8 +590,8 @@ TRUSTED = [
     "python harness (harness/props/C13.py, c13_geom.py), literal printers, coqc evaluating Exec.v / ExecF.v verdict terms; "
     "generated interval lemmas tie ModelR.quotient / ModelR.edge to the oracle quotient and to the bin edges bincount returns "
     "(Interval tactic: FloatAxioms/Uint63 primitive specifications)",
-    "coverage limit: intersect lists are explored up to ~20000 triangles per call (depth 12 only with radii below ~1 degree, radius "
-    "90 degrees only up to depth ~5); bincount at depth <= 10 with the id span of the second list <= 600000 (stat.histogram needs "
+    "coverage limit: intersect lists are explored up to ~10000 triangles per call (depth 12 only with radii below ~0.7 degree, radius "
+    "90 degrees only up to depth ~4); bincount at depth <= 10 with the id span of the second list <= 600000 (stat.histogram needs "
     "~1 s per million bins), search angles <= 90 degrees",
 ]
 
@@ -659,7 +661,8 @@ def translation_step(ctx):
     """regenerate the source-dependent parts of the model (c13_translate, fail-closed) and re-check, in Coq,
     the statements that depend on them"""
     gen = load_gen()
-    ctx.obligation("translation of htmc.cc:cbincount/intersect, SpatialIndex.cpp:idByPoint/isInside, htm.py:log_bins "
+    ctx.obligation("translation of htmc.cc:cbincount/intersect/init/lookup_id, SpatialIndex.cpp:idByPoint/isInside/roots/children, "
+                   "SpatialVector.cpp/SpatialEdge.cpp arithmetic, SpatialInterface init, htm.py:HTM.lookup_id/intersect/bincount/log_bins "
                    "(every modelled statement has the expected shape)", gen["error"] is None, gen["error"] or "")
     if gen["error"] is not None:
         ctx.violation("C13 translator: the modelled source no longer has the shape the model transcribes: " + gen["error"],
